@@ -28,6 +28,7 @@ pub struct Config {
     follow: Follow,
     new_paths: Option<Vec<String>>,
     files0_argument: Option<String>,
+    regex_type: matchers::RegexType,
 }
 
 impl Default for Config {
@@ -48,6 +49,7 @@ impl Default for Config {
             follow: Follow::Never,
             new_paths: None, // This option exclusively for -files0-from argument.
             files0_argument: None, //This option also is used for file0-from
+            regex_type: matchers::RegexType::default(),
         }
     }
 }
